@@ -626,6 +626,13 @@ def bam_pace(ctx, L, rule="R-BAM-PACE"):
         for i, e in r.effects():
             if e.kind == "store" and e.target == BAMI:
                 isnone = any(p and g == mk_cmp("==", ("p", "minimum_tp_bam_dt_interval"), ("c", None)) for g, p in lits(r.guards(i)))
+                nonec = mk_cmp("==", ("p", "minimum_tp_bam_dt_interval"), ("c", None))
+                if e.value[0] == "ife" and e.value[1] in (nonec, mk_not(nonec)):
+                    # chosen by a conditional expression: the two cases
+                    a_, b_ = (e.value[2], e.value[3]) if e.value[1] == nonec else (e.value[3], e.value[2])
+                    got.add((True, a_))
+                    got.add((False, b_))
+                    continue
                 got.add((isnone, e.value))
     inst = "%s default BAM interval %.3f s, configured value otherwise" % (L.tag, want)
     if (True, ("c", want)) in got and (False, ("p", "minimum_tp_bam_dt_interval")) in got and len(got) == 2:
